@@ -3,7 +3,7 @@ import hashlib
 
 from hypothesis import strategies as st
 
-from vf.harness import HarnessError, Task, drive, hx, unhx
+from vf.harness import HarnessError, Task, drive, hx, same_by_name, unhx
 from vf.model import kdf, params, vectors
 from vf.model.secp import SECP
 from vf.props._secp_common import to_lib
@@ -50,6 +50,7 @@ def o_sign(ctx, case):
     z = int.from_bytes(h, "big")
     ctx.begin("sign", case)
     sig = m.ecdsa_raw_sign(h, priv)
+    same_by_name(ctx, "sign", case, m.ecdsa_raw_sign, (h, priv), sig, "ecdsa_raw_sign")
     ctx.check(isinstance(sig, tuple) and len(sig) == 3 and all(type(x) is int for x in sig),
               "sign", "shape", case, f"ecdsa_raw_sign returned {sig!r}")
     v, r, s = sig
